@@ -80,6 +80,17 @@ func vCorruptExt(kind string) []byte {
 	case "padding":
 		// SEQ { SEQ { OCTET 000101, SEQ { BITSTRING pad=7 0a ff } } } : non-zero padding bits
 		return []byte{0x30, 0x0e, 0x30, 0x0c, 0x04, 0x03, 0x00, 0x01, 0x01, 0x30, 0x05, 0x03, 0x03, 0x07, 0x0a, 0xff}
+	case "family_short0": // address family of no octets at all / one octet / IPv4 multicast / one octet too many: none of
+		// them is "IPv4 unicast", whatever prefixes follow
+		return mk([]vIPFam{{[]byte{}, []asn1.BitString{{Bytes: []byte{10}, BitLength: 8}, {Bytes: []byte{1}, BitLength: 8}}}})
+	case "family_short1":
+		return mk([]vIPFam{{[]byte{0}, []asn1.BitString{{Bytes: []byte{10}, BitLength: 8}, {Bytes: []byte{1}, BitLength: 8}}}})
+	case "family_afionly":
+		return mk([]vIPFam{{[]byte{0, 1}, []asn1.BitString{{Bytes: []byte{10}, BitLength: 8}, {Bytes: []byte{1}, BitLength: 8}}}})
+	case "family_multicast":
+		return mk([]vIPFam{{[]byte{0, 1, 2}, []asn1.BitString{{Bytes: []byte{10}, BitLength: 8}, {Bytes: []byte{1}, BitLength: 8}}}})
+	case "family_long":
+		return mk([]vIPFam{{[]byte{0, 1, 1, 7}, []asn1.BitString{{Bytes: []byte{10}, BitLength: 8}, {Bytes: []byte{1}, BitLength: 8}}}})
 	case "family_v6":
 		return mk([]vIPFam{{[]byte{0, 2}, []asn1.BitString{{Bytes: make([]byte, 16), BitLength: 128}}}})
 	case "garbage":
